@@ -2,32 +2,39 @@
 
    Only theorem statements, each closed by [exact] and followed by Print
    Assumptions.  The model of libks/arena.c is Arena/ArenaDefs.v ([step], tied to
-   the implementation by the correspondence check; constants and the switch
-   [shrink_validated] from RobsdGen.Gen_Arena); the client-side bookkeeping of live
-   blocks ([ghost], [gstep]) and the oracle are in Arena/ArenaSpec.v.
+   the implementation by the correspondence check; constants and the switches
+   [shrink_validated], [grow_validated] from RobsdGen.Gen_Arena); the client-side
+   bookkeeping of live blocks ([ghost], [gstep]) and the oracle are in Arena/ArenaSpec.v.
 
    QUANTIFIER.  Every configuration [c] with [wf_cfg c] (instantiated for the normal
-   and the ASan build and the page sizes 4, 8, 16 and 64 KiB); no bound on the
-   length of the sequence, the nesting depth, the number of frames or the sizes
-   (below 2^64).  Three sets of states appear, from wide to narrow:
-   * [reach_any]: arena_alloc followed by ANY calls that return - used for clause 1
-     (alignment), which therefore holds for the property's quantifier as stated;
-   * [reach_full] = [reach] (C19_reach_full_is_reach): arena_alloc followed by a
-     WELL-BRACKETED sequence of calls (scopes are left innermost first - named
-     guard [lifo_okb], what the arena_scope() macro enforces; a leave of an
-     enclosing scope ends the scopes nested in it, and C19 speaks of nested scopes)
-     that respects [client_okb]: open scope, arena not freed, realloc names a live
-     user block with its true size, client writes stay inside live user blocks.
-     C19_reach_is_well_bracketed_runs says exactly this.
-   Outside the guard, stated as observations of what the code does:
-   C19_nonlifo_leave_overlaps_live_block, C19_nonlifo_leave_hits_header
-   (findings/C19_nonlifo_leave.md).
+   and the ASan build and the page sizes 4, 8, 16 and 64 KiB; its last conjunct says
+   that the source validates the scope before growing a block in place); no bound on the
+   length of the sequence, the nesting depth, the number of frames or the sizes (below
+   2^64).  The property's quantifier is "all sequences of scope enter/leave, ... calls".
+   The theorems hold for [reach]: arena_alloc followed by a WELL-BRACKETED sequence of calls
+   (scopes are left innermost first - named guard [lifo_okb], what the arena_scope() macro
+   enforces) that respects [client_okb]: open scope, arena not freed, realloc names a live
+   user block with its size or a positive part of it, client writes stay inside live user
+   blocks (C19_reach_is_well_bracketed_runs).  They are the _partial statements.
 
-   REPAIRED.  Shrinking a block of an inner scope through an outer scope was silent
-   until 4eb1227 ([c_sv] = false): C19_outer_use_dichotomy says this was the only hole
-   in the detection clause, C19_outer_shrink_damage what it cost in every reachable
-   state.  With the source as it is now the clause holds at full strength
-   (C19_outer_alloc_detected, pinned by C19_shrink_validated_now). *)
+   REFUTED outside the LIFO guard, INSIDE the property (arena_scope_enter / arena_scope_leave
+   are exported API): C19_nonlifo_leave_overlaps_live_block ("leaving a scope invalidates only
+   that scope's blocks": a block of a scope still open is handed out again, from every
+   reachable state) and C19_nonlifo_leave_hits_header ("detected instead of silently
+   corrupting": the frame header is handed out).  The oracle reports both as R_NONLIFO
+   (C19_oracle_flags_nonlifo_leave), signature nonlifo-leave-undetected, a KNOWN finding
+   (robsd itself leaves scopes only through the macro).  From the "len = 0" rewind on the
+   model no longer describes arena.c (struct arena_frame becomes client memory) and says so
+   (C19_model_unclaimed_after_reset); it never does inside the guard (C19_api_runs_never_cut).
+   "Every returned pointer is aligned, for ALL sequences" holds of the model
+   (Remark C19_model_alignment_any_sequence) but NOT of arena.c: after the header has been
+   handed out and written, arena_malloc returns a wild pointer (replayed on both builds,
+   corpus/C19/nonlifo_header_written.json, findings/C19_nonlifo_leave.md); the claim is
+   C19_returned_aligned, under the guard.
+
+   REPAIRED.  Growing in place through an outer scope (08bdded, [c_gv]) and shrinking a block of
+   an inner scope through an outer scope (4eb1227, [c_sv]) were silent; both switches are read
+   from the source and pinned (C19_grow_validated_now, C19_shrink_validated_now). *)
 From Robsd Require Import Arena.ArenaDefs Arena.ArenaSpec Arena.ArenaProofs Arena.ArenaInv Arena.ArenaThms
   Arena.ArenaHoles Arena.ArenaAny Arena.ArenaLive Arena.ArenaClients Arena.ArenaOracle.
 From RobsdGen Require Import Gen_Arena.
@@ -68,12 +75,24 @@ Proof. exact api_okb_parts. Qed.
 Print Assumptions C19_api_is_lifo_and_client.
 
 (* ---- clause 1: pointer-aligned --------------------------------------------------------------------- *)
-(* for ALL sequences of calls, API-respecting or not: whatever happened before, a pointer that
-   any operation returns is maxalign-aligned (relative to its frame; frame bases are malloc's) *)
-Theorem C19_returned_aligned_all_sequences : forall c, wf_cfg c -> forall st o st' p,
+(* Full statement: "for ALL sequences of calls, a pointer that any call returns is aligned".
+   _partial, under the guard: every pointer a call of a well-bracketed, API-respecting run returns
+   is maxalign-aligned (relative to its frame; frame bases are malloc's).
+   _refuted for arena.c outside the guard BY REPLAY (not a Coq fact, see the Remark below):
+   E; M 16; E; M 16; L 1; L 0; E; M 16 (= the frame header); memset of that block; M 16 returns
+   a wild, misaligned pointer in the normal build, the ASan build dies in the arena's own code. *)
+Theorem C19_returned_aligned : forall c, wf_cfg c -> forall st g o st' p,
+  reach c st g -> api_okb g o = true -> step c st o = Ok (st', EPtr (Some p)) -> snd p mod c_ma c = 0.
+Proof. exact returned_aligned. Qed.
+Print Assumptions C19_returned_aligned.
+
+(* A fact about the MODEL only: its frame metadata is kept apart from the bytes of the chunk, so
+   the model keeps returning aligned offsets after any misuse.  arena.c does not (above).  Not part
+   of the claim. *)
+Remark C19_model_alignment_any_sequence : forall c, wf_cfg c -> forall st o st' p,
   reach_any c st -> step c st o = Ok (st', EPtr (Some p)) -> snd p mod c_ma c = 0.
 Proof. exact returned_aligned_any. Qed.
-Print Assumptions C19_returned_aligned_all_sequences.
+Print Assumptions C19_model_alignment_any_sequence.
 
 (* every live block is maxalign-aligned ... *)
 Theorem C19_aligned : forall c, wf_cfg c -> forall st g b,
@@ -104,7 +123,9 @@ Print Assumptions C19_disjoint.
 (* ---- clause 3: contents, until the scope is left --------------------------------------------------------- *)
 (* no operation changes a byte of a block that is live before it, except the client's own write
    into that block: the arena's writes (calloc zeroing, string copies, realloc copies, cleanup
-   nodes, the indeterminate bytes of fresh memory) land in fresh memory only *)
+   nodes, the indeterminate bytes of fresh memory) land in fresh memory only.  [fill_misses o b]:
+   o is not a client write into b, and not a realloc that names b with FEWER bytes than b has
+   (then the caller has given up the rest of b; growing in place hands those bytes out again) *)
 Theorem C19_contents_stable : forall c, wf_cfg c -> forall st g o st' ev b,
   reach c st g -> api_okb g o = true -> step c st o = Ok (st', ev) ->
   In b (g_blocks g) -> fill_misses o b -> agree (a_mem (st_a st)) (a_mem (st_a st')) b.
@@ -188,9 +209,17 @@ Theorem C19_shrink_validated_now : forall gap ps, c_sv (cfg_of gap ps) = true.
 Proof. exact (fun _ _ => eq_refl). Qed.
 Print Assumptions C19_shrink_validated_now.
 
+(* ... and before growing a block in place (08bdded): the translator's [grow_validated] is true iff an
+   arena_scope_validate call lies on the path of arena_realloc_fast that reaches "Check if this is the
+   last allocated object"; reverting 08bdded flips it, this proof and C19_cfg_wf no longer check *)
+Theorem C19_grow_validated_now : forall gap ps, c_gv (cfg_of gap ps) = true.
+Proof. exact (fun _ _ => eq_refl). Qed.
+Print Assumptions C19_grow_validated_now.
+
 (* FULL STRENGTH: any allocation, cleanup registration or reallocation (growing or shrinking, of
-   ANY live block named with its true size - [api_full], no restriction on the level of the
-   block) through a scope that is not the innermost one traps *)
+   ANY live block named with its size or a positive part of it - [api_full], no restriction on the
+   level of the block) through a scope that is not the innermost one traps.  ([wf_cfg c] contains
+   c_gv c = true: the source validates growth.) *)
 Theorem C19_outer_alloc_detected : forall c, wf_cfg c -> forall st g o,
   c_sv c = true -> reach c st g -> api_full g o = true -> must_trap c o = true -> step c st o = Trap.
 Proof. exact outer_use_traps_full. Qed.
@@ -228,12 +257,13 @@ Theorem C19_outer_use_dichotomy : forall c, wf_cfg c -> forall st g o k st' ev,
 Proof. exact outer_use_dichotomy. Qed.
 Print Assumptions C19_outer_use_dichotomy.
 
-(* REFUTED for a source without the validation (the state before 4eb1227; what reverting it
-   costs): in EVERY reachable state with a scope open - enter, allocate m bytes, shrink the block
-   through the enclosing scope, leave, allocate n <= m bytes: no trap, and the last pointer is the
-   shrunk block itself (or that block's frame has been freed).  By the client's bookkeeping both
-   blocks are live, obtained through the same, still open, scope. *)
-Theorem C19_outer_shrink_damage : forall c, wf_cfg c -> forall st g m new n,
+(* HISTORICAL, about NO build configuration of the source as it is (c_sv c = false is the state
+   before 4eb1227; what reverting it would cost; it pins nothing): in EVERY reachable state with a
+   scope open - enter, allocate m bytes, shrink the block through the enclosing scope, leave,
+   allocate n <= m bytes: no trap, and the last pointer is the shrunk block itself (or that block's
+   frame has been freed).  By the client's bookkeeping both blocks are live, obtained through the
+   same, still open, scope. *)
+Remark C19_outer_shrink_damage : forall c, wf_cfg c -> forall st g m new n,
   c_sv c = false -> reach c st g -> g_freed g = false -> (1 <= depth g)%nat ->
   0 < new <= m -> 0 < n <= m -> m + c_hdr c + c_gap c <= HALF_LIMIT ->
   exists p q fin,
@@ -247,11 +277,12 @@ Theorem C19_outer_shrink_damage : forall c, wf_cfg c -> forall st g m new n,
 Proof. exact outer_shrink_reuse. Qed.
 Print Assumptions C19_outer_shrink_damage.
 
-(* ---- outside the LIFO guard: what the code does (observations, not part of the property) ------------------------------- *)
-(* arena_scope_leave validates nothing.  In EVERY reachable state: enter A, enter B, allocate m
-   bytes in B, leave A (B still open), enter C, allocate n <= m bytes in C - no trap, and the
-   block of B is handed out again (or its frame has been freed); B is still among the scopes
-   the client holds. *)
+(* ---- outside the LIFO guard, inside the property: REFUTED ---------------------------------------------------------- *)
+(* _refuted witness of "leaving a scope invalidates only that scope's blocks" for the quantifier as
+   stated (all sequences of enter/leave).  arena_scope_leave validates nothing.  In EVERY reachable
+   state: enter A, enter B, allocate m bytes in B, leave A (B still open), enter C, allocate
+   n <= m bytes in C - no trap, and the block of B is handed out again (or its frame has been
+   freed); B is still among the scopes the client holds. *)
 Theorem C19_nonlifo_leave_overlaps_live_block : forall c, wf_cfg c -> forall st g m n,
   reach c st g -> g_freed g = false -> 0 < n <= m -> m + c_hdr c + c_gap c <= HALF_LIMIT ->
   exists p q fin,
@@ -262,10 +293,11 @@ Theorem C19_nonlifo_leave_overlaps_live_block : forall c, wf_cfg c -> forall st 
 Proof. exact nonlifo_leave_reuse. Qed.
 Print Assumptions C19_nonlifo_leave_overlaps_live_block.
 
-(* leaving the nested scope after its enclosing scope takes the "len = 0" branch of
-   arena_scope_leave, and the next block is struct arena_frame itself (offset 0), in both
-   builds and for every page size in use ([hits_header], ArenaHoles.v: the run
-   E; M 16; E; M 16; L 1; L 0; E; M 16 ends Done with the last pointer at offset 0) *)
+(* _refuted witness of "detected instead of silently corrupting" for leaves in any order: leaving
+   the nested scope after its enclosing scope takes the "len = 0" branch of arena_scope_leave,
+   and the next block is struct arena_frame itself (offset 0), in both builds and for every page
+   size in use ([hits_header], ArenaHoles.v: the run E; M 16; E; M 16; L 1; L 0; E; M 16 ends
+   Done with the last pointer at offset 0) *)
 Theorem C19_nonlifo_leave_hits_header :
   Forall (fun ps => hits_header (cfg_of poison_normal ps) = true /\ hits_header (cfg_of poison_asan ps) = true)
          [4096; 8192; 16384; 65536].
@@ -284,8 +316,11 @@ Proof. exact reach2_proj. Qed.
 Print Assumptions C19_two_arenas_are_two_single_arenas.
 
 (* ---- arena-backed buffers and vectors (the calls buffer.c / vector.c issue) --------------------------------------------------- *)
-(* buffer_reserve on a buffer whose storage is a live user block of bf_siz bytes: the call is
-   inside the API, and it must trap exactly when the scope is not the innermost one *)
+(* [buf_reserve] / [vec_reserve] are defined from the old-size / new-size expressions, the doubling loop
+   and sizeof(struct vector) as regenerated from buffer.c / vector.c (ArenaClientDefs.v), and are compared
+   by the harness with every realloc the real containers issue.
+   buffer_reserve on a buffer whose storage is a live user block of bf_siz bytes: the call is inside the
+   API, and it must trap exactly when the scope is not the innermost one *)
 Theorem C19_buffer_growth_respects_api : forall c g k bf len o,
   scope_okb g k = true -> buf_ok g bf -> buf_reserve k bf len = Some (Some o) ->
   api_okb g o = true /\ must_trap c o = Nat.ltb 0 k.
@@ -298,6 +333,7 @@ Theorem C19_buffer_outer_growth_traps : forall c, wf_cfg c -> forall st g k bf l
 Proof. exact buf_outer_growth_traps. Qed.
 Print Assumptions C19_buffer_outer_growth_traps.
 
+(* [buf_ok] holds at creation (trivially: no storage yet) and is re-established by every growth *)
 Theorem C19_buffer_inner_growth : forall c, wf_cfg c -> forall st g bf len o,
   reach c st g -> scope_okb g 0 = true -> buf_ok g bf -> buf_reserve 0 bf len = Some (Some o) ->
   (exists st' q newsiz, step c st o = Ok (st', EPtr (Some q)) /\ o = Realloc 0 (bf_ptr bf) (bf_siz bf) newsiz /\
@@ -307,26 +343,57 @@ Theorem C19_buffer_inner_growth : forall c, wf_cfg c -> forall st g bf len o,
 Proof. exact buf_inner_growth. Qed.
 Print Assumptions C19_buffer_inner_growth.
 
-(* vector_reserve1 on a FULL vector (len = capacity: every vector_alloc, and arena_vector_init) *)
-Theorem C19_vector_full_growth_respects_api : forall c vhdr g k v n o,
-  scope_okb g k = true -> vec_ok vhdr g v -> v_len v = v_siz v -> vec_reserve vhdr k v n = Some (Some o) ->
+(* vector_reserve1 on ANY vector in order ([vec_ok]: header + capacity is a live user block, len <= capacity),
+   full or not: vector.c names header + len * stride, the used part of the block - inside the API *)
+Theorem C19_vector_growth_respects_api : forall c g k v n o,
+  scope_okb g k = true -> vec_ok ar_vec_hdr g v -> vec_reserve ar_vec_hdr k v n = Some (Some o) ->
   api_okb g o = true /\ must_trap c o = Nat.ltb 0 k.
-Proof. exact vec_reserve_api. Qed.
-Print Assumptions C19_vector_full_growth_respects_api.
+Proof. exact vec_reserve_api_src. Qed.
+Print Assumptions C19_vector_growth_respects_api.
 
-Theorem C19_vector_outer_growth_traps : forall c, wf_cfg c -> forall vhdr st g k v n o,
-  reach c st g -> scope_okb g k = true -> (0 < k)%nat -> vec_ok vhdr g v -> v_len v = v_siz v ->
-  vec_reserve vhdr k v n = Some (Some o) -> step c st o = Trap.
-Proof. exact vec_outer_growth_traps. Qed.
+Theorem C19_vector_outer_growth_traps : forall c, wf_cfg c -> forall st g k v n o,
+  reach c st g -> scope_okb g k = true -> (0 < k)%nat -> vec_ok ar_vec_hdr g v ->
+  vec_reserve ar_vec_hdr k v n = Some (Some o) -> step c st o = Trap.
+Proof. exact vec_outer_growth_traps_src. Qed.
 Print Assumptions C19_vector_outer_growth_traps.
 
-(* REFUTED for a vector with room left but not enough (vector_reserve(vv, n), len < capacity):
-   it names sizeof(struct vector) + len * stride, less than its block's size - outside [api_okb];
-   that the arena copes is observed by the harness, not proved *)
-Theorem C19_vector_partial_reserve_outside_api :
-  exists g v o, vec_ok 48 g v /\ scope_okb g 0 = true /\ vec_reserve 48 0 v 20 = Some (Some o) /\ api_okb g o = false.
-Proof. exact vec_reserve_underreports. Qed.
-Print Assumptions C19_vector_partial_reserve_outside_api.
+(* [vec_ok] holds for the header block vector_init_impl obtains by calloc(1, sizeof(struct vector)) ... *)
+Theorem C19_vector_ok_at_creation : forall c g k q stride,
+  0 < stride -> vec_ok ar_vec_hdr (gstep c g (Calloc k 1 ar_vec_hdr) (EPtr (Some q))) (mkVec q 0 0 stride).
+Proof. exact vec_init_ok_src. Qed.
+Print Assumptions C19_vector_ok_at_creation.
+
+(* ... and is re-established by every growth through the innermost scope; the header and the elements
+   in use are at the new place what they were at the old one *)
+Theorem C19_vector_inner_growth : forall c, wf_cfg c -> forall st g v n o,
+  reach c st g -> scope_okb g 0 = true -> vec_ok ar_vec_hdr g v -> vec_reserve ar_vec_hdr 0 v n = Some (Some o) ->
+  (exists st' q newsiz, step c st o = Ok (st', EPtr (Some q)) /\
+       reach c st' (gstep c g o (EPtr (Some q))) /\
+       vec_ok ar_vec_hdr (gstep c g o (EPtr (Some q))) (mkVec q newsiz (v_len v) (v_stride v)) /\
+       v_len v + n <= newsiz /\
+       (forall i, i < ar_vec_hdr + v_len v * v_stride v ->
+          a_mem (st_a st') (fst q) (snd q + i) = a_mem (st_a st) (fst (v_ptr v)) (snd (v_ptr v) + i))) \/
+  (step c st o = Exit1 /\ may_exit c o = true).
+Proof. exact vec_inner_growth_src. Qed.
+Print Assumptions C19_vector_inner_growth.
+
+(* what the correspondence driver answers for a container history ([buf_hist] / [vec_hist], compared by the
+   harness with every realloc the real buffer.c / vector.c issue) is the call of [buf_reserve] / [vec_reserve] *)
+Theorem C19_driver_buffer_calls_are_buf_reserve : forall k bf n,
+  match buf_newsiz bf n with
+  | None => buf_reserve k bf n = None
+  | Some r => reserve_sizes (buf_reserve k bf n) = Some (hd_error (buf_calls bf r))
+  end.
+Proof. exact buf_calls_reserve. Qed.
+Print Assumptions C19_driver_buffer_calls_are_buf_reserve.
+
+Theorem C19_driver_vector_calls_are_vec_reserve : forall vhdr k v n,
+  match vec_newsiz vhdr v n with
+  | None => vec_reserve vhdr k v n = None
+  | Some r => reserve_sizes (vec_reserve vhdr k v n) = Some (hd_error (vec_calls vhdr v r))
+  end.
+Proof. exact vec_calls_reserve. Qed.
+Print Assumptions C19_driver_vector_calls_are_vec_reserve.
 
 (* ---- 64-bit arithmetic ---------------------------------------------------------------------------------------------------------- *)
 (* the uint64_t arithmetic of align_address (addr + maxalign - 1, + poison_size) never
@@ -356,13 +423,14 @@ Theorem C19_oracle_content_observations_hold : forall c, wf_cfg c -> forall st g
 Proof. exact obs_content_hold. Qed.
 Print Assumptions C19_oracle_content_observations_hold.
 
-(* the whole oracle never objects to the model: for EVERY program (API-respecting or not, any
-   handles), the trace the model produces from arena_alloc passes every check of spec_check up to
-   the point where the program leaves the API (R_OUTSIDE_API) or names a pointer no operation
-   returned (R_BAD_HANDLE).  Hence an oracle failure on the implementation is a violation of C19
-   or a difference between model and implementation - never an artefact of the oracle. *)
+(* the whole oracle never objects to the model: for EVERY program that leaves scopes innermost first
+   (API-respecting or not otherwise, any handles), the trace the model produces from arena_alloc passes
+   every check of spec_check up to the point where the program leaves the API (R_OUTSIDE_API) or names
+   a pointer no operation returned (R_BAD_HANDLE).  Hence an oracle failure on the implementation is a
+   violation of C19 or a difference between model and implementation - never an artefact of the
+   oracle. *)
 Theorem C19_oracle_accepts_model : forall c, wf_cfg c -> forall st ops,
-  c_sv c = true -> init c = Some st ->
+  c_sv c = true -> init c = Some st -> has_nonlifo ops = false ->
   let '(tr, last, e) := mtrace c st ghost0 [] ops in
   match spec_check c tr last e with
   | None => True
@@ -371,11 +439,36 @@ Theorem C19_oracle_accepts_model : forall c, wf_cfg c -> forall st ops,
 Proof. exact model_passes_oracle_validated. Qed.
 Print Assumptions C19_oracle_accepts_model.
 
-(* for a source without the shrink validation the only further verdict is R_OUTER_SHRINK - the
-   oracle then objects to the model itself, rightly (C19_outer_shrink_damage) *)
-Theorem C19_oracle_verdicts_any_source : forall c, wf_cfg c -> forall st ops,
+(* a program that does leave a scope that is not the innermost one ([has_nonlifo], a predicate on the
+   program) is inside the property; the oracle judges it by the property's reading and objects to the
+   MODEL itself - rightly: R_NONLIFO on both inputs of findings/C19_nonlifo_leave.md, both builds *)
+Theorem C19_oracle_flags_nonlifo_leave :
+  Forall (fun ps => nonlifo_flagged (cfg_of poison_normal ps) = true /\ nonlifo_flagged (cfg_of poison_asan ps) = true)
+         [4096; 8192; 16384; 65536].
+Proof. exact nonlifo_flagged_builds. Qed.
+Print Assumptions C19_oracle_flags_nonlifo_leave.
+
+(* there the model's answer to the correspondence driver ends with "Unmodelled" ... *)
+Theorem C19_model_unclaimed_after_reset :
+  Forall (fun ps => reset_unmodelled (cfg_of poison_normal ps) = true /\ reset_unmodelled (cfg_of poison_asan ps) = true)
+         [4096; 8192; 16384; 65536].
+Proof. exact reset_unmodelled_builds. Qed.
+Print Assumptions C19_model_unclaimed_after_reset.
+
+(* ... which never happens inside the guard of the theorems: no API-respecting step takes the "len = 0"
+   branch or returns memory below the frame header *)
+Theorem C19_api_runs_never_cut : forall c, wf_cfg c -> forall st g o st' ev,
+  reach c st g -> api_okb g o = true -> step c st o = Ok (st', ev) -> exposes c ev = false.
+Proof. exact api_step_not_exposing. Qed.
+Print Assumptions C19_api_runs_never_cut.
+
+(* for any source ([c_sv] either way) and any program: the verdicts the oracle can reach on the model's
+   trace are those two, R_OUTER_SHRINK for a source without the shrink validation (about no build
+   configuration of the source as it is), or the program is not well-bracketed *)
+Remark C19_oracle_verdicts_any_source : forall c, wf_cfg c -> forall st ops,
   init c = Some st ->
-  let '(tr, last, e) := mtrace c st ghost0 [] ops in acceptable c (spec_check c tr last e).
+  let '(tr, last, e) := mtrace c st ghost0 [] ops in
+  acceptable c (spec_check c tr last e) \/ has_nonlifo ops = true.
 Proof. exact model_passes_oracle. Qed.
 Print Assumptions C19_oracle_verdicts_any_source.
 
